@@ -193,6 +193,15 @@ impl Gen
                     let k = self.next_tok; self.next_tok += 1; self.tokens.push(k);
                     Op::Once((self.g.cfg.nsys() + 1 + slot) as u8, b, k)
                 }
+                "on" =>
+                {
+                    let Some(slot) = self.once_used.iter().position(|u| !*u) else { continue };
+                    self.once_used[slot] = true;
+                    let m = self.g.modes[self.rng.gen_range(0..self.g.modes.len())].clone();
+                    let b = self.bundle(0);
+                    let k = if m == "revokable" { let k = self.next_tok; self.next_tok += 1; self.tokens.push(k); k } else { 0 };
+                    Op::On(m, (self.g.cfg.nsys() + 1 + slot) as u8, b, k)
+                }
                 "revoke" =>
                 {
                     if self.tokens.is_empty() { continue; }
